@@ -41,6 +41,8 @@ pub enum Corr {
     DeleteFile(u16),
     /// flip a bit of the integrity key file
     KeyFile(u16),
+    /// overwrite one byte of a snapshot header outside its checksum field (version, timestamps, ids, counts)
+    SnapHeader(u16, u8, u8),
 }
 #[derive(Debug, Clone, Serialize, Deserialize)]
 pub struct Case {
@@ -177,11 +179,10 @@ fn originals(dir: &Path) -> Vec<Rec> {
     out
 }
 /// Reference: load the newest self-consistent snapshot of a (possibly damaged) directory.
-fn ref_snapshot(dir: &Path) -> (State, bool) {
+fn ref_snapshot(dir: &Path) -> (State, Option<String>) {
     let mut snaps: Vec<PathBuf> = data_files(dir).into_iter().filter(|p| p.extension().map(|x| x == "snap").unwrap_or(false)).collect();
     snaps.sort();
     snaps.reverse();
-    let mut any_bad = false;
     for s in snaps {
         let b = std::fs::read(&s).unwrap_or_default();
         let ok = (|| {
@@ -200,22 +201,46 @@ fn ref_snapshot(dir: &Path) -> (State, bool) {
             }
             postcard::from_bytes::<State>(data).ok()
         })();
-        match ok {
-            Some(st) => return (st, any_bad),
-            None => any_bad = true,
+        if let Some(st) = ok {
+            return (st, s.file_name().map(|n| n.to_string_lossy().to_string()));
         }
     }
-    (State::new(), any_bad)
+    (State::new(), None)
 }
-/// Reference replay of a (possibly damaged) directory.
-fn reference(dir: &Path, orig: &[Rec]) -> State {
-    let (mut st, _) = ref_snapshot(dir);
+/// last_transaction_id recorded in each snapshot header of a (clean) directory
+fn snapshot_ids(dir: &Path) -> HashMap<String, u64> {
+    let mut out = HashMap::new();
+    for p in data_files(dir).into_iter().filter(|p| p.extension().map(|x| x == "snap").unwrap_or(false)) {
+        let b = std::fs::read(&p).unwrap_or_default();
+        if b.len() > 4 {
+            let n = u32::from_le_bytes(b[..4].try_into().unwrap()) as usize;
+            if 4 + n <= b.len() {
+                if let Ok(h) = postcard::from_bytes::<SnapshotHeader>(&b[4..4 + n]) {
+                    out.insert(p.file_name().unwrap().to_string_lossy().to_string(), h.last_transaction_id);
+                }
+            }
+        }
+    }
+    out
+}
+/// Reference replay of a (possibly damaged) directory. `skip_covered`: leave out records whose transaction id is
+/// covered by the loaded snapshot according to the id that snapshot *originally* recorded (an implementation may
+/// or may not re-apply such records; both are fine - trusting a damaged header field for it is not).
+fn reference(dir: &Path, orig: &[Rec], skip_covered: Option<&HashMap<String, u64>>) -> State {
+    let (mut st, loaded) = ref_snapshot(dir);
+    let covered: u64 = match (skip_covered, loaded) {
+        (Some(ids), Some(name)) => ids.get(&name).copied().unwrap_or(0),
+        _ => 0,
+    };
     let mut open: HashMap<u64, Vec<WalEntry>> = HashMap::new();
     for f in wal_files(dir) {
         let b = std::fs::read(&f).unwrap_or_default();
         for (off, len) in frames(&b).0 {
             let Ok(e) = postcard::from_bytes::<WalEntry>(&b[off + 4..off + len]) else { continue };
             if !orig.iter().any(|o| same(&o.entry, &e)) {
+                continue;
+            }
+            if e.transaction_id <= covered {
                 continue;
             }
             let id = e.transaction_id;
@@ -457,6 +482,23 @@ fn apply_script(dir: &Path, other_dir: &Path, script: &[Corr], final_state: &Sta
                 let _ = std::fs::remove_file(&f);
                 desc.push(format!("delete {}", f.file_name().unwrap().to_string_lossy()));
             }
+            Corr::SnapHeader(fp, off, byte) => {
+                let snaps: Vec<PathBuf> = files.iter().filter(|p| p.extension().map(|x| x == "snap").unwrap_or(false)).cloned().collect();
+                if snaps.is_empty() {
+                    continue;
+                }
+                let f = snaps[idx(*fp, snaps.len())].clone();
+                let mut b = std::fs::read(&f).unwrap_or_default();
+                if b.len() > 4 {
+                    let n = u32::from_le_bytes(b[..4].try_into().unwrap()) as usize;
+                    if n > 32 && 4 + n <= b.len() {
+                        let o = 4 + (*off as usize % (n - 32));
+                        b[o] = *byte;
+                        let _ = std::fs::write(&f, &b);
+                        desc.push(format!("snapshot header byte {o} of {} := {byte:#04x}", f.file_name().unwrap().to_string_lossy()));
+                    }
+                }
+            }
             Corr::KeyFile(bit) => {
                 let f = dir.join("state.key");
                 if let Ok(mut b) = std::fs::read(&f) {
@@ -495,7 +537,8 @@ fn run_case(c: &Case) -> Verdict {
         }
         let orig = originals(&a);
         // sanity of the reference itself: on the undamaged directory it must reproduce the final state
-        if reference(&a, &orig) != built.final_state {
+        let snap_ids = snapshot_ids(&a);
+        if reference(&a, &orig, None) != built.final_state || reference(&a, &orig, Some(&snap_ids)) != built.final_state {
             v.class("reference_disagrees_on_clean_directory(case skipped)");
             return v;
         }
@@ -504,7 +547,8 @@ fn run_case(c: &Case) -> Verdict {
         let key_touched = c.script.iter().any(|x| matches!(x, Corr::KeyFile(_)));
         let applied = apply_script(&dmg, &b, &c.script, &built.final_state);
         let total_size: u64 = data_files(&dmg).iter().filter_map(|p| std::fs::metadata(p).ok()).map(|m| m.len()).sum();
-        let want = reference(&dmg, &orig);
+        let want = reference(&dmg, &orig, None);
+        let want_skipping = reference(&dmg, &orig, Some(&snap_ids));
 
         // reopen the damaged directory (measuring heap growth on this thread)
         alloc_begin();
@@ -533,7 +577,7 @@ fn run_case(c: &Case) -> Verdict {
             }
         }
         // 2. agreement with the reference replay (unless the key file was damaged: then nothing verifies)
-        if !key_touched && got != want {
+        if !key_touched && got != want && got != want_skipping {
             let missing: Vec<&String> = want.keys().filter(|k| got.get(*k) != want.get(*k)).collect();
             let extra: Vec<&String> = got.keys().filter(|k| !want.contains_key(*k)).collect();
             let kind = if !extra.is_empty() || missing.iter().any(|k| got.contains_key(*k)) { "state-differs-from-replay-of-intact-records" } else { "intact-records-not-honoured" };
@@ -564,6 +608,7 @@ fn run_case(c: &Case) -> Verdict {
                 Corr::Resplit(..) => "resplit",
                 Corr::DeleteFile(..) => "delete_file",
                 Corr::KeyFile(..) => "key_file",
+                Corr::SnapHeader(..) => "snapshot_header",
             });
         }
         if data_files(&a).iter().any(|p| p.extension().map(|x| x == "snap").unwrap_or(false)) {
@@ -603,6 +648,7 @@ fn corr() -> impl Strategy<Value = Corr> {
         2 => (any::<u16>(), any::<u16>()).prop_map(|(f, r)| Corr::Resplit(f, r)),
         1 => any::<u16>().prop_map(Corr::DeleteFile),
         1 => any::<u16>().prop_map(Corr::KeyFile),
+        3 => (any::<u16>(), any::<u8>(), prop_oneof![Just(0x7fu8), Just(0xffu8), Just(0u8), any::<u8>()]).prop_map(|(f, o, b)| Corr::SnapHeader(f, o, b)),
     ]
 }
 
